@@ -153,6 +153,43 @@ theorem write_then_readAll_new (fs : Fs) (path : Bytes) (pa : CPath) (n : Name) 
       exact walk_after_create fs (.file ds.flatten) (by intro t; simp) _ _ _ true true _ _ (Or.inr rfl) hres
 
 
+/-- … and open(write | append) of a missing file creates it, with the same guarantee -/
+theorem append_then_readAll_new (fs : Fs) (path : Bytes) (pa : CPath) (n : Name) (ds : List Bytes)
+    (hres : resolve fs path true = .missing pa n) :
+    ∃ fs1 fd, fileOpen fs path (writeFlag + appendFlag) = (fs1, some fd) ∧
+      (runOps fs1 fd (ds.map FileOp.write)).2.2 = ds.map (fun _ => FileOut.wrote true) ∧
+      fileReadAllPath (runOps fs1 fd (ds.map FileOp.write)).1 path = some ds.flatten := by
+  have hP := append_singleton_ne_nil pa n
+  have hfl : openFlags (writeFlag + appendFlag) = { acc := .wronly, creat := true } := by rfl
+  have happ : hasFlag (writeFlag + appendFlag) appendFlag = true := by decide
+  refine ⟨fs.set (pa ++ [n]) (.file []), ⟨pa ++ [n], .wronly, false, 0⟩, ?_, ?_⟩
+  · unfold fileOpen sysOpen
+    simp [hfl, hres, happ, sysLseek, fileData, get_set fs _ _ _ hP]
+  · have hget1 : (fs.set (pa ++ [n]) (.file [])).get (pa ++ [n]) = some (.file []) := by
+      rw [get_set fs _ _ _ hP]; simp
+    have href := runOps_refines (ds.map FileOp.write) (fs.set (pa ++ [n]) (.file [])) ⟨pa ++ [n], .wronly, false, 0⟩ []
+      rfl hP hget1
+    have hspec := specRun_writes .wronly (by simp) ds []
+    simp only [List.length_nil, List.nil_append] at hspec
+    simp only [hspec] at href
+    obtain ⟨h1, h2, _, h4⟩ := href
+    refine ⟨h1, ?_⟩
+    apply readAllPath_of_resolve _ path (pa ++ [n])
+    -- the world after the writes looks like fs with the new file holding the written bytes
+    have hequiv : ∀ q, (runOps (fs.set (pa ++ [n]) (.file [])) ⟨pa ++ [n], .wronly, false, 0⟩ (ds.map FileOp.write)).1.get q
+        = (fs.set (pa ++ [n]) (.file ds.flatten)).get q := by
+      intro q
+      by_cases hq : q = pa ++ [n]
+      · subst hq; rw [h2, get_set fs _ _ _ hP]; simp
+      · rw [h4 q hq, get_set fs _ q _ hP, get_set fs _ q _ hP, if_neg hq, if_neg hq]
+    rw [resolve_congr _ _ hequiv]
+    unfold resolve at hres ⊢
+    by_cases hne : path = []
+    · simp [hne] at hres
+    · rw [if_neg hne] at hres ⊢
+      exact walk_after_create fs (.file ds.flatten) (by intro t; simp) _ _ _ true true _ _ (Or.inr rfl) hres
+
+
 /-- File::open(path, writeFlag | appendFlag) on an existing file keeps its bytes and positions at the end:
     after File::write d₁ … dₙ, File::readAll(path) returns the old bytes followed by d₁ ++ … ++ dₙ -/
 theorem append_then_readAll_existing (fs : Fs) (path : Bytes) (p : CPath) (c : Bytes) (ds : List Bytes)
